@@ -20,9 +20,10 @@ import (
 // opens and closes; hooks (build tag verif) in bfe_balance/backend record the events.
 
 type healthOp struct {
-	Op string `json:"op"`
-	T  int    `json:"t"`
-	Ok bool   `json:"ok"`
+	Op      string `json:"op"`
+	T       int    `json:"t"`
+	Ok      bool   `json:"ok"`
+	SuccNum int    `json:"succNum"` // op "conf": the cluster's health-check success threshold is reloaded
 }
 type healthCase struct {
 	ID      int        `json:"id"`
@@ -192,6 +193,16 @@ func healthRun() {
 				switch op.Op {
 				case "fail", "succ":
 					chans[op.T] <- op.Op
+				case "conf":
+					nsn := op.SuccNum
+					nfn, nschem, niv, nto := c.FailNum, "tcp", interval, 200
+					confsMu.Lock()
+					confs[cluster] = &cluster_conf.BackendCheck{Schem: &nschem, FailNum: &nfn, SuccNum: &nsn, CheckInterval: &niv, CheckTimeout: &nto}
+					confsMu.Unlock()
+					rec.mu.Lock()
+					rec.seq++
+					rec.evs = append(rec.evs, hEvent{Ev: "conf", Cid: rec.cid, Seq: rec.seq, Succ: nsn})
+					rec.mu.Unlock()
 				case "probe":
 					tl.set(op.Ok)
 					time.Sleep(time.Duration(interval+3) * time.Millisecond)
@@ -241,6 +252,10 @@ func healthRun() {
 			rec.mu.Lock()
 			block := []interface{}{map[string]interface{}{"ev": "new", "cid": c.ID, "failNum": c.FailNum, "succNum": c.SuccNum}}
 			for _, e := range rec.evs {
+				if e.Ev == "conf" {
+					block = append(block, map[string]interface{}{"ev": "conf", "cid": e.Cid, "succNum": e.Succ})
+					continue
+				}
 				block = append(block, e)
 			}
 			block = append(block, map[string]interface{}{"ev": "end", "cid": c.ID, "panic": atomic.LoadInt32(&panicked) == 1})
